@@ -362,6 +362,8 @@ func runCaseOnce(c *vlib.Ctx, prop string, idx, attempt int, self, bin, casesRoo
 			}
 		}
 		switch e.Ev {
+		case "mode-spelling":
+			c.Count("control_mode_spelled_in_capitals_or_mixed_case", 1)
 		case "update-lost":
 			c.Count("status_updates_refused_by_the_agent_link", 1)
 		case "op-start":
